@@ -4,6 +4,7 @@ import (
 	"errors"
 	"fmt"
 	goio "io"
+	"os"
 	"path/filepath"
 	"sort"
 
@@ -188,6 +189,12 @@ func (wf *WALFileType) replayTGData(tgID int64, wtSets []wal.WTSet) (err error) 
 	for _, wtSet := range wtSets {
 		fp, err2 := cfp.GetFP(wtSet.FilePath)
 		if err2 != nil {
+			if errors.Is(err2, os.ErrNotExist) {
+				// the bucket was removed after this write was logged: there is nothing to recover
+				// for it, and the other write sets (and transactions) of the WAL must still be applied
+				log.Warn(fmt.Sprintf("skip replaying a write to %s: the file no longer exists", wtSet.FilePath))
+				continue
+			}
 			return wal.ReplayError{
 				Msg: fmt.Sprintf("failed to open a filepath %s in write transaction set:%v",
 					wtSet.FilePath, err2.Error(),
